@@ -738,6 +738,23 @@ func foldAtom(a *Atom) *Formula {
 	return FAtom(a)
 }
 
+// Key is a canonical rendering over atom keys (independent of display names).
+func (f *Formula) Key() string {
+	switch f.Op {
+	case 'T':
+		return "T"
+	case 'F':
+		return "F"
+	case 'A':
+		return f.Atom.key
+	}
+	parts := make([]string, len(f.Sub))
+	for i, s := range f.Sub {
+		parts[i] = s.Key()
+	}
+	return string(f.Op) + "(" + strings.Join(parts, ",") + ")"
+}
+
 func (f *Formula) String() string {
 	switch f.Op {
 	case 'T':
